@@ -293,6 +293,7 @@ prop("C16", "c16",
      "claims name a reserved claim or >= 2 entries; distinct by setup.",
      [dict(run="^TestIssuedTokensVerifyAndCarrySystemClaims$", quick=400, thorough=12000, shards_thorough=8),
       dict(run="^TestTokensOfEverySignerVerifyAgainstThePublishedKeySet$", quick=200, thorough=3000, shards_thorough=4),
+      dict(run="^TestTokensHandedOutAfterAReloadVerify$", quick=300, thorough=4000, shards_thorough=4),
       dict(run="^TestConcurrentIssuanceAndReload$", quick=1, thorough=1, shards_thorough=1, race=True),
       dict(run="^TestScheduledIssuanceAndReload$", quick=1500, thorough=30000, shards_thorough=4, instrument=True)],
      ["tokens served from cache across a reload are out of scope (the concurrent part uses a ttl below the caching threshold)",
